@@ -30,6 +30,7 @@ package keeper
 // ---- C09: the execution head advances only by valid child blocks ----------------------------------------
 
 //@ func (msgServer).NewEthBlock
+//@ requires counters: st.bitcoin.EthTxNonce < 9223372036854775808
 //@ property C09 C08
 //@ requires inv20: st.bitcoin.Params.DepositTaxRate < 10000 && st.bitcoin.Params.MinDepositAmount >= 1000 && st.bitcoin.Params.ConfirmationNumber >= 1
 //@ requires counter: st.goat.Block.BlockNumber < 18446744073709551615
@@ -47,6 +48,7 @@ package keeper
 // VerifyDequeue re-derives the due system transactions (this pops both module queues in the context it is
 // given) and compares them with the head of the block's transaction list.
 //@ func (Keeper).VerifyDequeue
+//@ requires counters: st.bitcoin.EthTxNonce < 9223372036854775808
 //@ property C08 C09
 //@ ensures shape: err == nil ==> len(txRoot) == params.GoatHeaderExtraLengthV0 && len(txs) >= bat(txRoot, 0)
 //@ loop 0 invariant idx: -1 <= rangeindex && rangeindex < len(btcTxs)
@@ -90,6 +92,7 @@ package keeper
 
 // The handler returns (ACCEPT, nil) or (nil, err); baseapp turns an error into REJECT.
 //@ func (Keeper).ProcessProposalHandler$1
+//@ requires counters: st.bitcoin.EthTxNonce < 9223372036854775808
 //@ property C08 C19
 //@ requires rpp != nil
 //@ requires counter: st.goat.Block.BlockNumber < 18446744073709551615
@@ -107,6 +110,7 @@ package keeper
 
 // Structural checks (goroutine 1) and engine newPayload (goroutine 2) run concurrently; Wait returns nil only if both did.
 //@ func (Keeper).verifyEthBlockProposal
+//@ requires counters: st.bitcoin.EthTxNonce < 9223372036854775808
 //@ property C08 C19
 //@ requires msg != nil
 //@ requires counter: st.goat.Block.BlockNumber < 18446744073709551615
@@ -123,6 +127,7 @@ package keeper
 
 // goroutine 1: structural checks against the committed state
 //@ func (Keeper).verifyEthBlockProposal$1
+//@ requires counters: st.bitcoin.EthTxNonce < 9223372036854775808
 //@ property C08 C19
 //@ requires nonnil: *msg != nil && *payload != nil
 //@ requires counter: st.goat.Block.BlockNumber < 18446744073709551615
@@ -182,6 +187,7 @@ package keeper
 
 // Dequeue: the system transactions handed to the engine when proposing (pops both module queues)
 //@ func (Keeper).Dequeue
+//@ requires counters: st.bitcoin.EthTxNonce < 9223372036854775808
 //@ property C08 C19
 //@ loop 0 invariant idx: -1 <= rangeindex && rangeindex < len(btcTxs)
 //@ loop 1 invariant idx: -1 <= rangeindex && rangeindex < len(lockingTxs)
